@@ -128,6 +128,7 @@ type Stats struct {
 	NanosCVC5  int64
 	NanosZ3New int64
 	Trivial    int64
+	Relaxed    int64
 }
 
 var Global Stats
@@ -305,7 +306,38 @@ func (s *S) Check(pc []*term.T, goal *term.T, wantModel bool) (Result, term.Mode
 	cs := make([]*term.T, 0, len(rel)+1)
 	cs = append(cs, rel...)
 	cs = append(cs, goal)
-	return s.raw(cs, wantModel)
+	res, mod := s.raw(cs, wantModel)
+	if res == Unknown && len(rel) > 0 {
+		// Relaxation: unsat of (subset of pc) ∧ goal implies unsat of pc ∧ goal. Solvers
+		// sometimes stall on a constraint that is irrelevant to the goal (e.g. a
+		// disequality over a non-linear term); a sat answer of a relaxed query proves nothing.
+		var kept []*term.T
+		for _, c := range rel {
+			if c.Op == term.Not && c.A.Op == term.Eq {
+				continue
+			}
+			kept = append(kept, c)
+		}
+		if len(kept) < len(rel) {
+			if r, _ := s.raw(append(append([]*term.T{}, kept...), goal), false); r == Unsat {
+				atomic.AddInt64(&Global.Relaxed, 1)
+				return Unsat, nil
+			}
+		}
+		if len(rel) <= 24 {
+			for i := range rel {
+				sub := make([]*term.T, 0, len(rel))
+				sub = append(sub, rel[:i]...)
+				sub = append(sub, rel[i+1:]...)
+				sub = append(sub, goal)
+				if r, _ := s.raw(sub, false); r == Unsat {
+					atomic.AddInt64(&Global.Relaxed, 1)
+					return Unsat, nil
+				}
+			}
+		}
+	}
+	return res, mod
 }
 
 // CheckAll solves every independent component of cs and merges the models.
